@@ -240,6 +240,20 @@ pub fn thread_end() {
     });
 }
 
+/// publish the calling thread's site counters now (long-lived worker threads)
+pub fn flush_hits() {
+    CTX.with(|c| {
+        if let Some(ctx) = c.borrow_mut().as_mut() {
+            for (i, h) in ctx.local_hits.iter_mut().enumerate() {
+                if *h != 0 {
+                    SITE_HITS[i].fetch_add(*h as u64, Relaxed);
+                    *h = 0;
+                }
+            }
+        }
+    });
+}
+
 /// start counting the calling thread's own steps for one API call; `limit` = 0 disables
 pub fn op_begin(limit: u64) {
     CTX.with(|c| {
